@@ -273,8 +273,9 @@ static inline bool simulated() {
 // ------------------------------------------------------------------------------------------
 static void after_resume();
 
+static int g_spin = 0;
 static void park_wait(SimThread* t) {
-  for (int i = 0; i < 400; ++i) {
+  for (int i = 0; i < g_spin; ++i) {
     if (__atomic_load_n(&t->park, __ATOMIC_ACQUIRE) == 1)
       goto got;
     cpu_relax();
@@ -439,11 +440,12 @@ extern "C" void sim_result_line(char* buf, size_t n, const char* status, const c
   size_t o = 0;
   o += (size_t)snprintf(
       buf + o, n - o,
-      "{\"seed\":%llu,\"status\":\"%s\",\"class\":\"%s\",\"msg\":\"%s\",\"fp\":\"%016llx\",\"steps\":%llu,"
+      "{\"seed\":%llu,\"workload\":\"%s\",\"status\":\"%s\",\"class\":\"%s\",\"msg\":\"%s\",\"fp\":\"%016llx\",\"steps\":%llu,"
       "\"switches\":%llu,\"simtime_ns\":%llu,\"threads\":%d,\"blocks\":%llu,\"idle_jumps\":%llu,"
       "\"futex_timeouts\":%llu,\"events\":%llu,\"policy\":%d,\"sched_sig\":\"%016llx\",\"shape\":\"%016llx\","
       "\"tail\":%d,\"notes\":\"%s\",\"faults\":[",
-      (unsigned long long)g.opts.seed, status, ecls, emsg, (unsigned long long)g.fp,
+      (unsigned long long)g.opts.seed, g.opts.workload ? g.opts.workload : "", status, ecls, emsg,
+      (unsigned long long)g.fp,
       (unsigned long long)g.step, (unsigned long long)g.switches, (unsigned long long)g.now, g.nth,
       (unsigned long long)g.blocks, (unsigned long long)g.idle_jumps, (unsigned long long)g.futex_timeouts,
       (unsigned long long)g.events, g.policy, (unsigned long long)g.sched_sig, (unsigned long long)g.shape,
@@ -1416,6 +1418,8 @@ static void exit_key_dtor(void* p) {
     sim_thread_exit(t);
 }
 
+static pthread_t fake_handle(int id);
+
 static void* trampoline(void* p) {
   SimThread* t = (SimThread*)p;
   tl_self = t;
@@ -1449,7 +1453,7 @@ extern "C" int pthread_create(pthread_t* th, const pthread_attr_t* attr, void* (
       live++;
   if (live > g.max_threads_live)
     g.max_threads_live = live;
-  *th = nt->real;
+  *th = fake_handle(nt->id);
   fp_mix(0xC000 + (uint64_t)nt->id);
   // slow_start fault: the new thread does not get to run for a while
   bool slow = false;
@@ -1476,10 +1480,17 @@ extern "C" int pthread_create(pthread_t* th, const pthread_attr_t* attr, void* (
   return 0;
 }
 
+// Simulated threads are named by synthetic handles: real pthread_t values are recycled by glibc
+// as soon as a thread has been reaped, which we do eagerly at simulated exit (for deterministic
+// memory reuse), i.e. possibly before the program joins it.
+static const unsigned long kFakeHandleBase = 0x51d0000000000000ul;
+static pthread_t fake_handle(int id) {
+  return (pthread_t)(kFakeHandleBase + (unsigned long)id);
+}
 static SimThread* find_by_real(pthread_t th) {
-  for (int i = 0; i < g.nth; ++i)
-    if (g.th[i].has_real && pthread_equal(g.th[i].real, th) && !g.th[i].joined)
-      return &g.th[i];
+  unsigned long v = (unsigned long)th;
+  if (v >= kFakeHandleBase && v < kFakeHandleBase + (unsigned long)g.nth)
+    return &g.th[v - kFakeHandleBase];
   return nullptr;
 }
 
@@ -1932,4 +1943,7 @@ extern "C" void sim_watch(const void* addr, sim_watch_cb cb) {
 // ------------------------------------------------------------------------------------------
 __attribute__((constructor)) static void simrt_ctor() {
   mallopt(M_ARENA_MAX, 1);
+  const char* sp = getenv("SIMRT_SPIN");
+  if (sp)
+    g_spin = atoi(sp);
 }
